@@ -28,8 +28,10 @@ def install(loader_mod, tracer: Tracer, max_poller_ops: int = 40):
     saved = (loader_mod.threading, loader_mod.ThreadPoolExecutor)
 
     class RLockProxy:
+        REAL = staticmethod(REAL_THREADING.RLock)
+
         def __init__(self):
-            self._l = REAL_THREADING.RLock()
+            self._l = self.REAL()
 
         def __enter__(self):
             tracer.log("acq")
@@ -89,7 +91,11 @@ def install(loader_mod, tracer: Tracer, max_poller_ops: int = 40):
                 return fn(*a, **k)
             return FutureProxy(self._ex.submit(wrapped))
 
-    th = types.SimpleNamespace(RLock=RLockProxy, Lock=REAL_THREADING.Lock, Event=REAL_THREADING.Event, Thread=ThreadProxy,
+    class LockProxy(RLockProxy):
+        """a reloader whose lock is a plain `threading.Lock` is traced just the same (the tracer's own mutex is REAL_THREADING.Lock)"""
+        REAL = staticmethod(REAL_THREADING.Lock)
+
+    th = types.SimpleNamespace(RLock=RLockProxy, Lock=LockProxy, Event=REAL_THREADING.Event, Thread=ThreadProxy,
                                get_ident=REAL_THREADING.get_ident, current_thread=REAL_THREADING.current_thread)
     loader_mod.threading = th
     loader_mod.ThreadPoolExecutor = ExecutorProxy
